@@ -85,6 +85,36 @@ let run_case (fields : string list) : string =
     "OK\t" ^ hex_of_str (process_yaml max_scan_token_size (str_of_hex id) (str_of_hex b))
   | "copyright" :: _ :: v :: y :: b :: _ ->
     "OK\t" ^ hex_of_str (update_rules max_scan_token_size (str_of_hex v) (str_of_hex y) (str_of_hex b))
+  | "pat" :: name :: l :: _ ->
+    let line = str_of_hex l in
+    let some1 = function None -> "NOMATCH" | Some a -> "MATCH\t" ^ hex_of_str a in
+    let some2 = function None -> "NOMATCH" | Some (a, b) -> "MATCH\t" ^ hex_of_str a ^ "\t" ^ hex_of_str b in
+    let some3 = function None -> "NOMATCH" | Some ((a, b), c) -> "MATCH\t" ^ hex_of_str a ^ "\t" ^ hex_of_str b ^ "\t" ^ hex_of_str c in
+    let b0 = function false -> "NOMATCH" | true -> "MATCH" in
+    (match name with
+     | "include" -> some2 (m_include line)
+     | "include_except" -> some3 (m_include_except line)
+     | "definition" -> some3 (m_definition line)
+     | "comment" -> b0 (m_comment line)
+     | "flags" -> some1 (m_flags line)
+     | "prefix" -> some1 (m_prefix line)
+     | "suffix" -> some1 (m_suffix line)
+     | "block_start" -> some2 (m_block_start line)
+     | "block_end" -> b0 (m_block_end line)
+     | "processor_start" -> some2 (m_processor_start line)
+     | "assemble_input" -> some1 (m_assemble_input line)
+     | "assemble_output" -> some1 (m_assemble_output line)
+     | _ -> "UNKNOWN-PATTERN")
+  | "process_line" :: l :: indent :: _ ->
+    (match process_line (str_of_hex l) (nat_of_int (int_of_string indent)) with
+     | (Some o, i) -> "OK\t" ^ hex_of_str o ^ "\t" ^ string_of_int (int_of_nat i)
+     | (None, i) -> "ERR\t" ^ string_of_int (int_of_nat i))
+  | "format_bytes" :: b :: _ ->
+    let fwd = all_pnames and bwd = List.rev all_pnames in
+    let run o = format_bytes (fun _ -> o) max_scan_token_size (str_of_hex b) in
+    let show = function Ok o -> "OK\t" ^ hex_of_str o | Err _ -> "ERR" | Crash _ -> "CRASH" in
+    let a = show (run fwd) and c = show (run bwd) in
+    if a = c then a else "ORDER-DEPENDENT\t" ^ a ^ "\x1f" ^ c
   | s :: _ -> "UNKNOWN-SUITE " ^ s
   | [] -> "EMPTY"
 
